@@ -184,12 +184,12 @@ class PFDLTreeVisitor(PFDLParserVisitor):
         self, ctx: PFDLParser.Call_inputContext
     ) -> List[Union[str, List[str], Struct]]:
         input_params = []
-        for child in ctx.parameter():
-            parameter = self.visitParameter(child)
-            input_params.append(parameter)
-        for child in ctx.struct_initialization():
-            struct = self.visitStruct_initialization(child)
-            input_params.append(struct)
+        # keep the source order: variables / attribute accesses and struct literals may be mixed
+        for child in ctx.children:
+            if isinstance(child, PFDLParser.ParameterContext):
+                input_params.append(self.visitParameter(child))
+            elif isinstance(child, PFDLParser.Struct_initializationContext):
+                input_params.append(self.visitStruct_initialization(child))
         return input_params
 
     def visitCall_output(self, ctx: PFDLParser.Call_outputContext) -> Dict[str, Union[str, Array]]:
